@@ -260,6 +260,7 @@ def plan(tier):
     for lo in range(0, 256, 32):
         units.append(('line-start', lo, lo + 32))
     units.append(('contexts',))
+    units += [('threads', a, b) for a, b in [(0, 4), (2, 3), (3, 4)]]
     units.append(('scale',))
     for lo in range(0, 256, 16):
         units.append(('bytes', lo, lo + 16))
@@ -318,6 +319,11 @@ def OPT_UNITS(tier):
 
 
 def run_unit(unit, tier):
+    if unit[0] == 'threads':
+        # two threads, each writing and reading its own file (LF and CRLF
+        # header lines), every interleaving with <= 2 / 3 preemptions
+        from mc import wrgraph
+        return wrgraph.run_thread_unit(unit, tier, Acc)
     acc = Acc()
     try:
         _run_unit(unit, tier, acc)
@@ -549,6 +555,10 @@ def _run_unit(unit, tier, acc):
 
 def replay(payload):
     _IN_REPLAY[0] = True
+    if payload.get('kind') == 'threads':
+        from mc import wrgraph
+        return [{'key': k, 'msg': m}
+                for k, m in wrgraph.replay_threads(payload)]
     if payload.get('kind') != 'header':
         return []
     kw = {}
